@@ -173,7 +173,9 @@ def attribute(fd_list, doc, key, schema, value, dump, answer=""):
                             if hit3(value): return fd
         if fd["id"] == "C02-variant-shared-inline-type":
             from props import c05 as _c05
-            pairs = _c05.shared_variant_types(dump)
+            import irutil as _ir
+            _t = dump["ref_to_id"].get("#" if key == "#" else "def:" + key)
+            pairs = _c05.shared_variant_types(dump, only=_ir.reachable(dump, _t) if _t is not None else None)
             def hit2(v):
                 if isinstance(v, dict):
                     return any(tg in v and any(k in v for k in ks) for tg, ks in pairs) or any(hit2(x) for x in v.values())
